@@ -214,6 +214,15 @@ func checkMergedView(c *Ctx, r *rep.Report, props []string, idx int, ts *gen.Tab
 		fail("scan-mismatch|"+mismatchClass(wantRefs, wantLogs, refs, logs), d)
 		return
 	}
+	{
+		irng := gen.NewRng(gen.Mix(c.Seed^0x11eb, int64(idx)))
+		if sig, d, steps := interleavedCursors(irng, m, wantRefs, wantLogs, nil, 2+irng.Intn(3), 300); sig != "" {
+			fail("interleaved-iterators|"+sig, d)
+			return
+		} else {
+			r.Count("interleaved_iterator_steps", steps)
+		}
+	}
 	if shadow >= 2 {
 		r.Nontrivial(rep.Hash(setHash, view, "scan"))
 	}
@@ -516,7 +525,15 @@ func RunC11(c *Ctx) {
 		rr := gen.NewRng(gen.Mix(c.Seed, int64(idx)+77))
 		th := fmt.Sprintf("%x", rep.HashBytes(data))
 		info := layoutOf(data)
-		for _, oid := range oidsOf(wantRefs, t.Cfg.HashSize(), rr) {
+		toids := oidsOf(wantRefs, t.Cfg.HashSize(), rr)
+		if sig, d, steps := interleavedCursors(rr, rd, wantRefs, nil, toids, 2+rr.Intn(3), 300); sig != "" {
+			r.Violate(props, "table|interleaved-iterators|"+sig, d, mkCase(c, "GenOidTable", idx, t, d))
+			closer()
+			continue
+		} else {
+			r.Count("interleaved_iterator_steps", steps)
+		}
+		for _, oid := range toids {
 			okc := checkRefsFor(c, r, props, "table", rd, wantRefs, oid, func(d string) interface{} { return mkCase(c, "GenOidTable", idx, t, d) })
 			if !okc {
 				break
@@ -563,6 +580,15 @@ func RunC11(c *Ctx) {
 			}
 			// RefsFor never returns deletions in either view
 			live, _ := gen.Overlay(ts.Tables, false)
+			if len(oids) > 0 {
+				vrefs, _ := gen.Overlay(ts.Tables, view == "raw")
+				if sig, d, steps := interleavedCursors(rr, m, vrefs, nil, oids, 2+rr.Intn(3), 200); sig != "" {
+					r.Violate(props, view+"|interleaved-iterators|"+sig, d, setCase{Prop: c.Prop, Seed: c.Seed, Index: idx, Gen: "GenTableSet^0xc11", Note: ts.Note, View: view, Detail: d})
+					break
+				} else {
+					r.Count("interleaved_iterator_steps", steps)
+				}
+			}
 			for _, oid := range oids {
 				okc := checkRefsFor(c, r, props, view, m, live, oid, func(d string) interface{} {
 					return setCase{Prop: c.Prop, Seed: c.Seed, Index: idx, Gen: "GenTableSet^0xc11", Note: ts.Note, View: view, Detail: d}
